@@ -68,6 +68,10 @@ type EndpointShards struct {
 	// Due to the larger time, it is still possible that connection errors will occur while
 	// CDS is updated.
 	ServiceAccounts sets.String
+
+	// removed is set, with the lock held, once this shard set has been unlinked from the EndpointIndex.
+	// A writer that looked the shard set up before the unlink must not write into it.
+	removed bool
 }
 
 // Keys gives a sorted list of keys for EndpointShards.Shards.
@@ -270,6 +274,7 @@ func (e *EndpointIndex) deleteServiceInner(shard ShardKey, serviceName, namespac
 	if !preserveKeys {
 		if len(epShards.Shards) == 0 {
 			delete(e.shardsBySvc[serviceName], namespace)
+			epShards.removed = true
 		}
 		if len(e.shardsBySvc[serviceName]) == 0 {
 			delete(e.shardsBySvc, serviceName)
@@ -328,6 +333,16 @@ func (e *EndpointIndex) UpdateServiceEndpoints(
 	}
 
 	ep.Lock()
+	for ep.removed {
+		// A concurrent delete unlinked this (empty) shard set between our lookup and taking its lock;
+		// writing into it would lose the update. Fetch or re-create the shard set that is in the index.
+		ep.Unlock()
+		ep, created = e.GetOrCreateEndpointShard(hostname, namespace)
+		if created {
+			pushType = FullPush
+		}
+		ep.Lock()
+	}
 	defer ep.Unlock()
 	oldIstioEndpoints := ep.Shards[shard]
 	newIstioEndpoints, needPush := endpointUpdateRequiresPush(oldIstioEndpoints, istioEndpoints)
